@@ -207,7 +207,9 @@ var c04NestingBoundary = &vlib.Check{Prop: "C04", Name: "nesting-boundary", Orac
 
 var c04Corpus = &vlib.Check{Prop: "C04", Name: "corpus", Oracle: c04Oracle, Classify: acceptedClassify}
 
-func init() { vlib.Register(c04Stream, c04Corpus, c04Nesting, c04NestingBoundary, c05Stream, c05Corpus) }
+func init() {
+	vlib.Register(c04Stream, c04Corpus, c04Nesting, c04NestingBoundary, c05Stream, c05Corpus)
+}
 
 // genAllOfFamily: object types written with the rules an object literal may carry, and types inheriting from them through
 // allOf (one parent or a list, chains), used by a response, a request and a Path.  Whatever the builder accepts of these
